@@ -6,7 +6,7 @@ from .values import *
 from . import ops
 
 RLIMIT = 40_000_000        # resource limit per query (deterministic, load independent)
-TIMEOUT_MS = 60_000        # wall-clock safety net only
+TIMEOUT_MS = 30_000        # wall-clock safety net only
 FEAS_RLIMIT = 3_000_000
 
 
@@ -63,6 +63,32 @@ def exc_ancestors(name, clsinfo=None):
     return out
 
 
+def len_weaken(g, pos=True):
+    """g with every POSITIVE byte-string equality a = b replaced by len(a) = len(b) (a consequence of g), or None if
+    g has no such equality"""
+    changed = [False]
+
+    def walk(t, pos):
+        if z3.is_and(t) or z3.is_or(t):
+            ch = [walk(c, pos) for c in t.children()]
+            return z3.And(ch) if z3.is_and(t) else z3.Or(ch)
+        if z3.is_not(t):
+            return z3.Not(walk(t.children()[0], not pos))
+        if z3.is_implies(t):
+            a, b = t.children()
+            return z3.Implies(walk(a, not pos), walk(b, pos))
+        if z3.is_app(t) and t.decl().kind() == z3.Z3_OP_ITE and t.sort() == BoolSort:
+            c, a, b = t.children()
+            return z3.If(c, walk(a, pos), walk(b, pos))
+        if pos and z3.is_eq(t) and t.children()[0].sort() == BytesSort:
+            a, b = t.children()
+            changed[0] = True
+            return ops.blen(a) == ops.blen(b)
+        return t
+    r = walk(g, pos)
+    return r if changed[0] else None
+
+
 _SYMS_CACHE = {}
 
 
@@ -93,6 +119,30 @@ def term_symbols(t):
     return _SYMS_CACHE[key][1]
 
 
+def content_symbols(t):
+    """the uninterpreted symbols of t that carry byte-string CONTENT (range sort Seq, or an array of Seq)"""
+    out = set()
+    seen = set()
+    stack = [t]
+    while stack:
+        x = stack.pop()
+        i = x.get_id()
+        if i in seen:
+            continue
+        seen.add(i)
+        if z3.is_quantifier(x):
+            stack.append(x.body())
+            continue
+        if z3.is_app(x):
+            d = x.decl()
+            if d.kind() == z3.Z3_OP_UNINTERPRETED:
+                rs = d.range()
+                if rs.kind() == z3.Z3_SEQ_SORT or (rs.kind() == z3.Z3_ARRAY_SORT and rs.range().kind() == z3.Z3_SEQ_SORT):
+                    out.add(d.name())
+            stack.extend(x.children())
+    return frozenset(out)
+
+
 class ObligationResult:
     __slots__ = ('label', 'status', 'model', 'time', 'backend', 'path', 'detail', 'size')
 
@@ -108,7 +158,9 @@ class ObligationResult:
 
 
 class Ctx:
-    def __init__(self, decisions=(), inputs=None):
+    def __init__(self, decisions=(), inputs=None, new_path=False):
+        if new_path:
+            ops.reset_path_state()
         self.decisions = list(decisions)
         self.pos = 0
         self.trace = []                 # decisions actually taken on this run
@@ -124,6 +176,7 @@ class Ctx:
         self.queries = 0
         self.notes = []
         self.skolems = {}
+        self.links = []                 # companion-length links (bytes term, Int length, symbols of the bytes term)
         self.instances = {}             # skolem name -> extra instantiation terms for callee postconditions
         self.assumptions_used = set()
         self.lib_used = set()
@@ -164,12 +217,64 @@ class Ctx:
         if z3.is_false(t):
             raise PathEnd()
         self.pc.append(t)
+        self._learn_bounds(t)
+
+    def _learn_bounds(self, t):
+        """x <= c, x >= c, not(x <= c), ... with x an Int constant symbol: refine the interval used by the bit encodings"""
+        neg = False
+        if z3.is_not(t):
+            neg = True
+            t = t.children()[0]
+        if z3.is_and(t) and not neg:
+            for c in t.children():
+                self._learn_bounds(c)
+            return
+        if not z3.is_app(t) or len(t.children()) != 2:
+            return
+        k = t.decl().kind()
+        a, b = t.children()
+        if z3.is_int_value(a) and not z3.is_int_value(b):
+            a, b = b, a
+            k = {z3.Z3_OP_LE: z3.Z3_OP_GE, z3.Z3_OP_GE: z3.Z3_OP_LE, z3.Z3_OP_LT: z3.Z3_OP_GT, z3.Z3_OP_GT: z3.Z3_OP_LT}.get(k, k)
+        if not (z3.is_int_value(b) and z3.is_const(a) and a.sort() == IntSort and a.decl().kind() == z3.Z3_OP_UNINTERPRETED):
+            return
+        c = b.as_long()
+        if neg:
+            k = {z3.Z3_OP_LE: z3.Z3_OP_GT, z3.Z3_OP_GE: z3.Z3_OP_LT, z3.Z3_OP_LT: z3.Z3_OP_GE, z3.Z3_OP_GT: z3.Z3_OP_LE}.get(k)
+        if k == z3.Z3_OP_LE:
+            ops.refine_bounds(a, hi=c)
+        elif k == z3.Z3_OP_LT:
+            ops.refine_bounds(a, hi=c - 1)
+        elif k == z3.Z3_OP_GE:
+            ops.refine_bounds(a, lo=c)
+        elif k == z3.Z3_OP_GT:
+            ops.refine_bounds(a, lo=c + 1)
+        elif k == z3.Z3_OP_EQ and not neg:
+            ops.refine_bounds(a, lo=c, hi=c)
 
     def drain_facts(self):
         """instantiated axioms produced inside ops (no ctx there) join the path condition"""
         while ops.XOR8_FACTS:
             t, f = ops.XOR8_FACTS.pop()
             self.pc.append(f)
+        while ops.LINKS:
+            t, n = ops.LINKS.pop()
+            self.links.append((t, n, content_symbols(t)))
+            self.pc.append(n >= 0)
+
+    def active_links(self, extra):
+        """Length(t) = n for every companion-length term t whose CONTENT is constrained somewhere in the path
+        condition or the query; the others are dropped (their content is arbitrary: only the length matters)"""
+        allsyms = set()
+        for c in self.pc:
+            allsyms |= term_symbols(c)
+        for e in extra:
+            allsyms |= term_symbols(e)
+        out = []
+        for t, n, sy in self.links:
+            if sy & allsyms:
+                out.append(z3.Length(t) == n)
+        return out
 
     def _relevant(self, extra):
         """cone of influence: the conjuncts of the path condition that share (transitively) an uninterpreted
@@ -178,9 +283,10 @@ class Ctx:
         want = set()
         for e in extra:
             want |= term_symbols(e)
+        links = self.active_links(extra)
         if not want:
-            return list(self.pc), True
-        items = [(c, term_symbols(c)) for c in self.pc]
+            return list(self.pc) + links, True
+        items = [(c, term_symbols(c)) for c in self.pc + links]
         chosen = [False] * len(items)
         changed = True
         while changed:
@@ -200,7 +306,7 @@ class Ctx:
         self.queries += 1
         t0 = time.time()
         if full:
-            sel, complete = list(self.pc), True
+            sel, complete = list(self.pc) + self.active_links(extra), True
         else:
             sel, complete = self._relevant(extra)
         s = z3.Solver()
@@ -208,10 +314,17 @@ class Ctx:
         s.set('rlimit', rlimit)
         for c in sel:
             s.add(c)
+        # hard wall-clock stop: some theory loops ignore the soft timeout
+        import threading
+        wd = threading.Timer(TIMEOUT_MS / 1000.0 + 5, lambda: s.ctx.interrupt())
+        wd.daemon = True
+        wd.start()
         try:
             r = s.check(extra)
         except z3.Z3Exception:
             r = z3.unknown
+        finally:
+            wd.cancel()
         self.last_solver = s
         self.last_complete = complete
         dt = time.time() - t0
@@ -301,20 +414,33 @@ class Ctx:
         if isinstance(goal, bool):
             goal = z3.BoolVal(goal)
         g = z3.simplify(goal)
+        goal_raw = goal
         t0 = time.time()
         if z3.is_true(g):
             self.results.append(ObligationResult(label, 'unsat', None, 0.0, 'simplify', list(self.trace), detail, 1))
             return
-        r = self._check([z3.Not(g)], RLIMIT)
+        # length pre-check: a positive equality between byte strings implies equal lengths, so a model of
+        # pc /\ not(g with those equalities replaced by length equalities) refutes g - without building long sequences
+        r = None
+        neg = z3.Not(g)
+        glen = len_weaken(goal_raw)
+        if glen is not None:
+            r0 = self._check([z3.Not(glen)], RLIMIT)
+            if r0 == z3.sat:
+                r = z3.sat
+                neg = z3.Not(glen)
+                detail = (detail + ' [refuted through lengths]').strip()
+        if r is None:
+            r = self._check([neg], RLIMIT)
         if r == z3.sat and not self.last_complete:
             # confirm the refutation against the whole path condition
-            r2 = self._check([z3.Not(g)], RLIMIT, full=True)
+            r2 = self._check([neg], RLIMIT, full=True)
             if r2 == z3.unsat:
                 r = z3.unsat
             elif r2 == z3.sat:
                 r = z3.sat
             else:
-                self._check([z3.Not(g)], RLIMIT)      # keep the sliced model
+                self._check([neg], RLIMIT)      # keep the sliced model
                 detail = (detail + ' [counter-model of the relevant part of the path condition]').strip()
         dt = time.time() - t0
         size = len(g.sexpr())
@@ -341,7 +467,8 @@ class Ctx:
 
     def _cvc5_fallback(self, g):
         from . import solve
-        return solve.cvc5_check(self.pc, z3.Not(g))
+        sel, _ = self._relevant([z3.Not(g)])
+        return solve.cvc5_check(sel, z3.Not(g))
 
     def read_model(self, m):
         out = {}
@@ -365,6 +492,15 @@ def model_value(m, v, depth=0):
         if v.ty == 'real' and z3.is_rational_value(r):
             return '%d/%d' % (r.numerator_as_long(), r.denominator_as_long()) if r.denominator_as_long() != 1 else r.numerator_as_long()
         if v.ty == 'bytes':
+            lt = ops.LEN_TERM.get(v.t.get_id())
+            if lt is not None:
+                n = m.eval(lt, model_completion=True)
+                got = seq_model_bytes(m, r)
+                if z3.is_int_value(n) and isinstance(got, dict) and 'bytes' in got and len(got['bytes']) // 2 != n.as_long():
+                    # content unconstrained on this path: any content of that length will do
+                    nn = n.as_long()
+                    return {'bytes': '00' * nn} if nn <= 200000 else {'bytes_len': nn}
+                return got
             return seq_model_bytes(m, r)
         if v.ty == 'str' and z3.is_string_value(r):
             return r.as_string()
